@@ -1,0 +1,21 @@
+//go:build verif
+
+package aggregate
+
+import "github.com/thanos-community/promql-engine/execution/model"
+
+// VerifChildren exposes the child slots of the operators of this package to the
+// verification harness (build tag verif only).
+func VerifChildren(op model.VectorOperator) []*model.VectorOperator {
+	switch o := op.(type) {
+	case *aggregate:
+		out := []*model.VectorOperator{&o.next}
+		if o.paramOp != nil {
+			out = append(out, &o.paramOp)
+		}
+		return out
+	case *kAggregate:
+		return []*model.VectorOperator{&o.next, &o.paramOp}
+	}
+	return nil
+}
